@@ -69,16 +69,7 @@ pub fn run_one(flow: &Flow, inp: &RunIn<'_>) -> RunOut {
 #[test]
 fn e2e_c36() {
     let Some(cfg) = cfg_for("C36") else { return };
-    let flows: Vec<LazyFlow> = FlowKind::ALL.iter().chain(&FlowKind::FINDING).map(|k| LazyFlow::new(*k)).collect();
-    // programs listed in FlowKind::FINDING get weight 0 (replay only) unless explicitly included
-    let with_findings = std::env::var("VERIF_E5_INCLUDE_FINDINGS").is_ok();
-    let scenarios = flows
-        .iter()
-        .map(|f| Scenario {
-            name: f.kind.name(),
-            weight: if FlowKind::FINDING.contains(&f.kind) && !with_findings { 0 } else { 1 },
-            run: Box::new(move |inp: &RunIn<'_>| run_one(f.get(), inp)),
-        })
-        .collect();
+    let flows: Vec<LazyFlow> = FlowKind::ALL.iter().map(|k| LazyFlow::new(*k)).collect();
+    let scenarios = flows.iter().map(|f| Scenario { name: f.kind.name(), weight: 1, run: Box::new(move |inp: &RunIn<'_>| run_one(f.get(), inp)) }).collect();
     drive(&cfg, &META, scenarios, None);
 }
